@@ -165,7 +165,8 @@ Definition node_eqb (a b : node) : bool :=
 Definition node_len (n : node) : nat := (n_end n - n_begin n)%nat.
 
 (* ------------------------------------------------------------------ MeCabOovPlugin *)
-Record cinfo := mkCI { ci_type : N; ci_invoke : bool; ci_group : bool; ci_length : nat }.
+(* ci_length is the u32 of the char.def header: kept in N (it may be 4294967295) *)
+Record cinfo := mkCI { ci_type : N; ci_invoke : bool; ci_group : bool; ci_length : N }.
 Record oovdef := mkOov { o_left : N; o_right : N; o_cost : Z; o_pos : N }.
 Record mecab := mkMecab { m_cats : list cinfo; m_oovs : list (N * list oovdef) }.
 
@@ -190,15 +191,26 @@ Definition iter_flags (c : N) : list N :=
 
 Definition oov_node (b e : nat) (o : oovdef) : node := mkNode b e (o_left o) (o_right o) (o_cost o) (o_pos o).
 
-(* for i in 1..=length { sublength = char_distance(offset, i); if sublength > llength { break }; push for every oov } *)
-Fixpoint len_loop (is : list nat) (len off llength : nat) (oovs : list oovdef) : list node :=
-  match is with
-  | [] => []
-  | i :: t => let sub := char_distance len off i in
-              if cmp_eval OF.mecab_break_cmp sub llength then []
-              else map (oov_node off (off + sub)) oovs ++ len_loop t len off llength oovs
+(* for i in 1..=length {
+     sublength = char_distance(offset, i);
+     if sublength > llength || sublength < i { break }       (second test since the `fix:` of the clamped-distance loop)
+     push a candidate offset..offset+sublength for every unk.def template }
+   [length] is a u32 and may be huge, so the loop counter is followed with explicit fuel: with the clamp test the loop
+   leaves at the latest when i passes the end of the text (mecab_fuel, bound proved in Proofs/OovMecab.v); without it the
+   loop really runs `length` times. *)
+Definition loop_done (i : nat) (n : N) : bool :=
+  if OF.mecab_len_inclusive then N.ltb n (N.of_nat i) else N.leb n (N.of_nat i).
+Fixpoint len_loop (fuel i : nat) (n : N) (len off llength : nat) (oovs : list oovdef) : list node :=
+  match fuel with
+  | O => []
+  | S f =>
+    if loop_done i n then []
+    else let sub := char_distance len off i in
+         if cmp_eval OF.mecab_break_cmp sub llength || (OF.mecab_break_on_clamp && Nat.ltb sub i) then []
+         else map (oov_node off (off + sub)) oovs ++ len_loop f (S i) n len off llength oovs
   end.
-Definition len_range (n : nat) : list nat := seq 1 (if OF.mecab_len_inclusive then n else pred n).
+Definition mecab_fuel (n : N) (len off : nat) : nat :=
+  if OF.mecab_break_on_clamp then S (S (len - off)) else N.to_nat n.
 
 Definition mecab_class (m : mecab) (len off char_len : nat) (other : N) (ctype : N) : list node :=
   match find_cinfo m ctype with
@@ -210,7 +222,7 @@ Definition mecab_class (m : mecab) (len off char_len : nat) (other : N) (ctype :
          | Some oovs =>
            let grp := if ci_group ci then map (oov_node off (off + char_len)) oovs else [] in
            let ll := if ci_group ci then (char_len - OF.mecab_group_dec)%nat else char_len in
-           grp ++ len_loop (len_range (ci_length ci)) len off ll oovs
+           grp ++ len_loop (mecab_fuel (ci_length ci) len off) 1 (ci_length ci) len off ll oovs
          end
   end.
 
@@ -382,7 +394,7 @@ Definition build_lattice_spec (c : ctx) (ps : list provider) (dict : list (list 
 (* candidate ends prescribed by one class definition at [off] when the class run there has [char_len] characters *)
 Definition prescribed_lengths (ci : cinfo) (char_len : nat) : list nat :=
   (if ci_group ci then [char_len] else [])
-  ++ seq 1 (Nat.min (ci_length ci) (if ci_group ci then pred char_len else char_len)).
+  ++ seq 1 (N.to_nat (N.min (ci_length ci) (N.of_nat (if ci_group ci then pred char_len else char_len)))).
 
 Definition prescribed_class (m : mecab) (off char_len : nat) (other : N) (ctype : N) : list node :=
   match find_cinfo m ctype with
@@ -452,7 +464,7 @@ Definition check_call (cs : list N) (p : provider) (off : nat) (other : N) (pre 
   let c := mk_ctx cs in
   res_eqb node_list_eqb (provide p c off other (map (dict_node off) pre)) out
   && match p, out with
-     | PMecab m, ROk ns => same_node_set ns (prescribed m cs off other)
+     | PMecab m, ROk ns => node_list_eqb ns (prescribed m cs off other)   (* the prescribed list itself: nothing twice *)
      | PSimple o, ROk ns =>
          if other =? 0 then
            match ns with
